@@ -171,3 +171,16 @@ Definition incremental_equals_clean_needs_cache_injective_refuted_stmt : Prop :=
     let s := run m fixed (init y0 l0 c0) h in
     build_ok (snd (build_step m fixed s t)) /\
     outputs (fst (build_step m fixed s t)) <> clean_build m fixed s t.
+
+(* ---- concrete values for the witnesses and the satisfiability examples -- *)
+Definition ex_y (id : nat) : ysrc := {| y_id := id; y_syn := true; y_warn := false; y_conf := false; y_toks := 0 |}.
+Definition ex_l : lsrc := {| l_id := 0; l_syn := true; l_miss := false |}.
+Definition ex_c : settings :=
+  {| p_yk := 0; p_rec := 0; p_vis := 0; p_ed := 2; p_eoc := true; p_wae := true; p_sw := true;
+     p_ser := 0; p_mod := 0; p_st := 2; l_vis := 0; l_ed := 2; l_mod := 0; l_ci := 0 |}.
+Definition ex_c_vis : settings :=
+  {| p_yk := 0; p_rec := 0; p_vis := 1; p_ed := 2; p_eoc := true; p_wae := true; p_sw := true;
+     p_ser := 0; p_mod := 0; p_st := 2; l_vis := 0; l_ed := 2; l_mod := 0; l_ci := 0 |}.
+Definition ex_c_st : settings :=
+  {| p_yk := 0; p_rec := 0; p_vis := 0; p_ed := 2; p_eoc := true; p_wae := true; p_sw := true;
+     p_ser := 0; p_mod := 0; p_st := 0; l_vis := 0; l_ed := 2; l_mod := 0; l_ci := 0 |}.
